@@ -212,6 +212,7 @@ func registerRT(e *Engine) {
 	})
 	rt("Thorough", func(p *Path, a []Value) Value { return VBool{BoolC(p.tier == "thorough")} })
 	rt("Note", func(p *Path, a []Value) Value { return nil })
+	rt("EnvBarrier", func(p *Path, a []Value) Value { return nil })
 	rt("Symbolic", func(p *Path, a []Value) Value { return VBool{tTrue} })
 	rt("ErrIs", func(p *Path, a []Value) Value {
 		// ErrIs(err, target) : same registered root
